@@ -131,7 +131,7 @@ def h_decision(ver: int, pfx: int, o1: int, o2: int, nka: bool, method: int, has
 
 # =========================================================================== full pipeline
 def pre_ka(ver: int, conn: int, method: int, framing: int, nka: bool, early: bool,
-           rmode: int) -> bool:
+           rmode: int, slow: bool = False) -> bool:
     if not (0 <= ver <= 1 and 0 <= conn < P.C and 0 <= method <= 2 and 0 <= framing <= 2
             and 0 <= rmode <= 2):
         return False
@@ -160,7 +160,7 @@ def request_bytes(ver, value, method, framing, early):
 EARLY_KEY = "early_finish_close_unannounced"
 
 
-def _known_early(ver, conn, method, framing, nka, early, rmode):
+def _known_early(ver, conn, method, framing, nka, early, rmode, slow=False):
     """Shape of the recorded finding: the handler finishes before the request body was read on a
     request that otherwise allows keep-alive. HTTP1Connection decides to close only in finish(), after
     the response head has been written, so the close is not announced (1.1) / keep-alive is acknowledged
@@ -172,7 +172,7 @@ def _known_early(ver, conn, method, framing, nka, early, rmode):
     return bool(early and allows and (not nka) and self_delimiting)
 
 
-def classify_ka(ver, conn, method, framing, nka, early, rmode):
+def classify_ka(ver, conn, method, framing, nka, early, rmode, slow=False):
     if _known_early(ver, conn, method, framing, nka, early, rmode):
         return EARLY_KEY
     return classify_conn(CONN_POOL[conn])
@@ -184,7 +184,8 @@ def classify_ka(ver, conn, method, framing, nka, early, rmode):
     thorough=dict(C=8, timeout=900, reach_timeout=90),
     nshards=dict(quick=9, thorough=9),
     reach=["kept_open_11", "kept_open_10", "closed_by_close_option", "closed_no_keep_alive",
-           "closed_undelimited_response", "closed_early_finish", "closed_undelimited_request"],
+           "closed_undelimited_response", "closed_early_finish", "closed_undelimited_request",
+           "closed_early_finish_slow_consumer", "kept_open_slow_consumer"],
     units=["http1connection.HTTP1Connection._can_keep_alive", "HTTP1Connection.write_headers",
            "HTTP1Connection.finish", "HTTP1Connection._finish_request", "HTTP1Connection._read_message",
            "HTTP1ServerConnection._server_request_loop", "web.RequestHandler.flush/finish",
@@ -192,20 +193,24 @@ def classify_ka(ver, conn, method, framing, nka, early, rmode):
     stubs=["FakeStream + virtual loop; logging disabled; fixed time.time()",
            "request bytes concrete, by symbolic index: version x Connection value (pool) x method x body "
            "framing {none, Content-Length, chunked}; solver-chosen Connection characters are in h_decision",
-           "response shapes pooled: buffered / streamed / streamed with explicit Content-Length"],
+           "response shapes pooled: buffered / streamed / streamed with explicit Content-Length",
+           "slow=True: slow consumer - FakeStream(slow_writes=True): every write stays pending while the "
+           "already-buffered request body and pipelined 2nd request are processed, then the peer drains "
+           "(flush_writes + run_ready until quiescent)"],
     outside=["client-side keep-alive", "a stream_request_body handler finishing early on a request "
              "WITHOUT a body (tornado closes; the statement is silent)", "idle timeouts",
              "request parse errors (C01)"],
     classify=classify_ka,
 )
-def h_keepalive(ver: int, conn: int, method: int, framing: int, nka: bool, early: bool, rmode: int):
+def h_keepalive(ver: int, conn: int, method: int, framing: int, nka: bool, early: bool, rmode: int,
+                slow: bool = False):
     value = CONN_POOL[conn]
     meth = _M[method]
     reqb = request_bytes(ver, value, method, framing, early)
     prog = PROGS[rmode]
     with install() as env:
         app = rig.make_app(prog)
-        st = rig.serve(env, app, reqb + rig.SECOND_REQ, no_keep_alive=nka)
+        st = rig.serve(env, app, reqb + rig.SECOND_REQ, no_keep_alive=nka, slow=slow)
         wire, closed = st.wire(), st.closed()
     # ---------------- oracle: the statement's truth table
     opts = options_of(value)
@@ -223,6 +228,8 @@ def h_keepalive(ver: int, conn: int, method: int, framing: int, nka: bool, early
     ch = (r1.get(b"connection") or b"").lower()
     if keep:
         reached("kept_open_11" if ver == 1 else "kept_open_10")
+        if slow:
+            reached("kept_open_slow_consumer")
         assert answered2 and rig.is_second_response(resps[1]), \
             "connection should stay open and answer the 2nd request: %r closed=%r" % (wire, closed)
         assert not closed, "closed although the request allowed keep-alive"
@@ -235,6 +242,8 @@ def h_keepalive(ver: int, conn: int, method: int, framing: int, nka: bool, early
             reached("closed_undelimited_response")
         if allows and not nka and self_delimiting and not body_read:
             reached("closed_early_finish")
+            if slow:
+                reached("closed_early_finish_slow_consumer")
         if ver == 0 and "keep-alive" in opts and not allows:
             reached("closed_undelimited_request")
         assert not answered2 and left == "clean", \
